@@ -24,7 +24,10 @@
    eigenvectors and phases by cross-multiplied equations.  "Within tolerance" enters in two ways only:
      * jit # 0  says that the real code is given the value shifted by tolerance/1000 in its first real coordinate
        (1e-7 under the absolute tolerance 1e-4; 1e-10 under the percentage tolerance 0.001 %, for vectors of norm
-       >= 0.1); such a submission is within tolerance of the lattice value and must be treated like it;
+       >= 0.1); such a submission is within tolerance of the lattice value and must be treated like it.  Under the
+       tolerances "tiny" (absolute 1e-12) and "zero" the same shift of 1e-7 is at least 1000 tolerances: the shifted
+       coordinate is then clearly different (ShiftIsFar) -- one submission, judged differently by graders that differ
+       only in their tolerance, which is what separates graders sharing one comparer object;
      * GuardOK(c) says that every sample is either exactly in the class or at least 1000 tolerances away from it
        (distances are computed exactly, through Gram determinants where a least-squares distance is needed).
    Cases that fail GuardOK are never generated (law LawGuard) so that rounding can never flip a verdict.
@@ -220,7 +223,7 @@ MessageModel(p, exp, got) ==
   ELSE [form |-> "shape", exp |-> exp, got |-> got, same |-> FALSE]
 
 (* ------------------------------------------------------------------ cases
-   [kind, tol ("abs" = 1e-4 | "pct" = 0.001 % | "zero"), jit (-1 | 0 | 1), policy, evalerr,
+   [kind, tol ("abs" = 1e-4 | "pct" = 0.001 % | "zero" | "tiny" = 1e-12), jit (-1 | 0 | 1), policy, evalerr,
     typed (the submission is of complex type even where its value is real),
     P (per sample: sequence of parameter values), S (per sample: the submission), mode (entry), cfg (linear)]   *)
 Kinds == {"cong", "between", "eigen", "span", "phase", "entry", "linear", "equal"}
@@ -231,7 +234,7 @@ ExpShape(c) == CASE c.kind \in {"cong", "between"} -> <<>>
                  [] OTHER -> c.P[1][1].shape
 WrongShape(c) == HasPolicy(c.kind) /\ c.S[1].shape # ExpShape(c)
 WellFormedCase(c) ==
-  /\ c.kind \in Kinds /\ c.tol \in {"abs", "pct", "zero"} /\ c.jit \in {-1, 0, 1} /\ c.typed \in BOOLEAN
+  /\ c.kind \in Kinds /\ c.tol \in {"abs", "pct", "zero", "tiny"} /\ c.jit \in {-1, 0, 1} /\ c.typed \in BOOLEAN
   /\ Len(c.S) >= 1 /\ Len(c.P) = Len(c.S)
   /\ \A s \in 1..Len(c.S) : /\ WellFormedVal(c.S[s]) /\ c.S[s].shape = c.S[1].shape
                             /\ Len(c.P[s]) = Len(c.P[1])
@@ -259,6 +262,13 @@ LinS(c) == FlatEnts(c.S)
 LinCredits(c) == LinearCredits(c.cfg, LinE(c), c.P[1][1].den, LinS(c), c.S[1].den)
 NoModeApplies(c) == ValidModes(c.cfg, LinE(c), LinS(c)) = {}
 
+\* the shift of the first real coordinate (1e-7) is at least 1000 tolerances of the grading grader
+ShiftIsFar(c) == c.jit # 0 /\ c.tol \in {"tiny", "zero"}
+\* student = expected, and the samples other than the first are not all equal: shifting the first student sample alone
+\* breaks every relation in both directions (the other points fix the line student = expected, the first one leaves it)
+ShiftBreaksAll(c) == LET E == LinE(c)   S == LinS(c) IN
+                     /\ RelEq(E, c.P[1][1].den, S, c.S[1].den)
+                     /\ \E j, k \in 2..Len(E) : E[j] # E[k]
 Allowed(c) ==
   IF c.evalerr THEN {EvalShapeOutcome(c.policy)}
   ELSE IF WrongShape(c) THEN {ShapeOutcome(c.policy)}
@@ -268,9 +278,11 @@ Allowed(c) ==
               ELSE {Grade(One)}
          [] c.kind \in {"eigen", "span", "phase", "equal"} -> IF AllMember(c) THEN {Grade(One)} ELSE {Grade(Zero)}
          [] c.kind = "entry" ->
-              {Grade(EntryCredit(Cardinality(MatchingEntries([s \in 1..NSamples(c) |-> c.P[s][1]], c.S)),
+              {Grade(EntryCredit(Cardinality(MatchingEntries([s \in 1..NSamples(c) |-> c.P[s][1]], c.S)
+                                             \ (IF ShiftIsFar(c) THEN {1} ELSE {})),
                                  Len(c.S[1].ent), c.mode))}
-         [] c.kind = "linear" -> {Grade(q) : q \in LinCredits(c)} \cup (IF NoModeApplies(c) THEN {SFError} ELSE {})
+         [] c.kind = "linear" /\ ShiftIsFar(c) -> {Grade(Zero)}                       \* (generated only with ShiftBreaksAll)
+         [] c.kind = "linear" /\ ~ShiftIsFar(c) -> {Grade(q) : q \in LinCredits(c)} \cup (IF NoModeApplies(c) THEN {SFError} ELSE {})
 
 RelationOf(c, allowed) ==
   IF c.evalerr THEN "evalerr"
@@ -313,7 +325,7 @@ Relation(c) == RelationOf(c, Allowed(c))
      "OriginalLinearSquares"      LinearComparer: sqrt(sum((x - y)^2)) WITHOUT moduli: for complex samples the sum of
                                   squares can vanish although x # y                                        (8219f0b) *)
 FlawNames == {"OriginalComplexOrdering", "OriginalCongruenceLinear", "OriginalSpanResidual", "OriginalLinearSquares",
-              "AliasedModeFilter"}                     \* (the last one: see "comparer objects and call histories")
+              "AliasedModeFilter", "StickyEntryTolerance"}        \* (the last two: see "comparer objects and call histories")
 SqSum(D) == GSum([k \in 1..Len(D) |-> GMul(D[k], D[k])])
 OriginalSpanAccept(v, vs) == Rank(vs) < Len(vs) \/ Len(v) <= Len(vs) \/ InSpan(v, vs)
 ImplSpanAccept(v, vs, flaws) == IF "OriginalSpanResidual" \in flaws THEN OriginalSpanAccept(v, vs) ELSE InSpan(v, vs)
@@ -347,7 +359,8 @@ ImplOutcome(c, flaws) ==
          [] c.kind = "span" ->
               IF \A s \in 1..NSamples(c) : ~VIsZero(c.S[s]) /\ ImplSpanAccept(c.S[s].ent, Ents(c.P[s]), flaws)
               THEN Grade(One) ELSE Grade(Zero)
-         [] c.kind = "linear" ->
+         [] c.kind = "linear" /\ ShiftIsFar(c) -> Grade(Zero)
+         [] c.kind = "linear" /\ ~ShiftIsFar(c) ->
               LET E == LinE(c)  dE == c.P[1][1].den  S == LinS(c)  dS == c.S[1].den   v == ValidModes(c.cfg, E, S) IN
               IF v = {} THEN SFError ELSE Grade(MaxCredit(c.cfg, {m \in v : ImplFitZero(m, E, dE, S, dS, c.jit, flaws)}))
          [] OTHER -> CHOOSE a \in Allowed(c) : TRUE
@@ -382,17 +395,31 @@ LawImplDeviatesOnlyThere(c, flaws) == ImplRefines(c, flaws) \/ DeviationClass(c,
 HistoryAllowed(calls) == [i \in 1..Len(calls) |-> Allowed(calls[i])]
 LawHistoryIndependent(calls) == \A i, j \in 1..Len(calls) : calls[i] = calls[j] => HistoryAllowed(calls)[i] = HistoryAllowed(calls)[j]
 Graded(c) == ~(c.evalerr \/ WrongShape(c))
-ObjModesInit(cfg) == Configured(cfg)
-ObjModesNext(modes, c, flaws) ==
-  IF c.kind = "linear" /\ Graded(c) /\ "AliasedModeFilter" \in flaws /\ EitherZero(LinE(c), LinS(c)) THEN modes \cap ZeroCompatible ELSE modes
-ImplOutcomeOnObject(c, modes, flaws) ==
-  IF c.kind = "linear" /\ Graded(c)
+(* object state of the implementation-shaped model: the modes a LinearComparer object still considers, and the tolerance
+   a MatrixEntryComparer object compares entries with ("own" = the tolerance of whichever grader is calling).
+   The current code keeps no state: a comparer receives the calling grader's utils (tolerance, shape validation) with
+   every call, so that graders sharing one comparer object -- explicitly, or through set_default_comparer -- are each
+   judged under their own configuration.  Variants:
+     "AliasedModeFilter"      LinearComparer filters its own mode list in place when a side is zero
+     "StickyEntryTolerance"   MatrixEntryComparer builds its entrywise comparison once and keeps it: every later call is
+                              judged with the tolerance of the FIRST grader that used the object                 *)
+ObjInit(cfg) == [modes |-> Configured(cfg), tol |-> "own"]
+ObjNext(st, c, flaws) ==
+  IF ~Graded(c) THEN st
+  ELSE IF c.kind = "linear" /\ "AliasedModeFilter" \in flaws /\ ~ShiftIsFar(c) /\ EitherZero(LinE(c), LinS(c))
+       THEN [st EXCEPT !.modes = @ \cap ZeroCompatible]
+  ELSE IF c.kind = "entry" /\ "StickyEntryTolerance" \in flaws /\ st.tol = "own" THEN [st EXCEPT !.tol = c.tol]
+  ELSE st
+ImplOutcomeOnObject(c, st, flaws) ==
+  IF ~Graded(c) THEN ImplOutcome(c, flaws)
+  ELSE IF c.kind = "linear" /\ ~ShiftIsFar(c)
   THEN LET E == LinE(c)  dE == c.P[1][1].den  S == LinS(c)  dS == c.S[1].den
-           v == IF EitherZero(E, S) THEN modes \cap ZeroCompatible ELSE modes
+           v == IF EitherZero(E, S) THEN st.modes \cap ZeroCompatible ELSE st.modes
        IN IF v = {} THEN SFError ELSE Grade(MaxCredit(c.cfg, {m \in v : ImplFitZero(m, E, dE, S, dS, c.jit, flaws)}))
+  ELSE IF c.kind = "entry" /\ st.tol # "own" THEN ImplOutcome([c EXCEPT !.tol = st.tol], flaws)
   ELSE ImplOutcome(c, flaws)
 \* on a fresh object the stateful model is the stateless one
-LawFreshObject(c, flaws) == ImplOutcomeOnObject(c, ObjModesInit(c.cfg), flaws) = ImplOutcome(c, flaws)
+LawFreshObject(c, flaws) == ImplOutcomeOnObject(c, ObjInit(c.cfg), flaws) = ImplOutcome(c, flaws)
 
 (* ------------------------------------------------------------------ overflow-aware comparison of non-negative rationals *)
 RECURSIVE CmpFrac(_, _, _, _)
@@ -485,6 +512,8 @@ ZeroReference(c, s) == c.tol = "pct" /\ ((c.kind = "eigen" /\ VIsZero(c.P[s][2])
 OnBoundary(c) == c.tol = "zero" \/ \E s \in 1..NSamples(c) : ZeroReference(c, s)
 \* the shift tolerance/1000 is 1e-10 under the percentage tolerance: meaningful for vectors of norm >= 0.1 only
 JitterOK(c) == c.jit # 0 => \/ c.tol = "abs"
+                            \/ ShiftIsFar(c) /\ c.kind = "entry"
+                            \/ c.tol = "tiny" /\ c.kind = "linear" /\ ShiftBreaksAll(c)
                             \/ c.tol = "pct" /\ c.kind \in {"eigen", "span", "phase"} /\ Leq(<<1, 100>>, VNorm2(c.S[1]))
 GuardOK(c) ==
   IF c.evalerr \/ WrongShape(c) THEN TRUE
